@@ -235,3 +235,37 @@ _add("C17",
 _add("C19",
      text="Also decided: Stats::read's record vector only ever receives push (file order is record order); a field skipped when writing must read back as the skipped value (default + is_empty, Option), otherwise refuted.",
      technique="operation whitelist on the record vector; conditional serde attributes decided exactly")
+
+
+# ---- third wave (seed round 4) ----
+_add("C06",
+     text="Also decided: the exact-spelling comparison applies the same character normalisation to the stored spelling as to the queried word (found and repaired: a word stored with a typographic apostrophe never matched its own entry); add_dictionary keeps every child (a skip decided by comparing hashes is refuted). Known finding K4: the dialect the spell checker tests is the first part's entry, so a user-added word that the curated list has for another dialect stays reported.",
+     technique="like-with-like rule on the comparison operands' conversion chains; sibling cross-check union vs. first-wins")
+_add("C07",
+     text="Also decided: load_user_dictionary / load_file_dictionary answer from load_dict of that call only (no in-memory copy that outlives it); the accept clauses of C06 (like-with-like, dialect first-wins = known finding K4) are instantiated here as R-C07-accept.",
+     technique="value-source walk through plumbing calls")
+_add("C08",
+     text="Also decided: the server's copy of a document is the client's text character for character - every Document in update_document is built from the text parameter through copying conversions only and every caller passes the notification's text / the server's own copy / the file read unaltered.",
+     technique="verbatim-provenance rule with a vocabulary of copying, plumbing and transforming calls; helpers are looked into")
+_add("C09",
+     text="Also decided: no update_document call inside a loop is fed a text read from the server's copy before the loop (R-C09-fresh).",
+     technique="loop-relative position of the read that feeds the call")
+_add("C10",
+     text="Also decided: every path get_file_dict_path answers with is Config.file_dict_path.join(..) computed in that call (no remembered path survives a configuration change).",
+     technique="exclusive answer provenance")
+_add("C11",
+     text="The gate rule is three-valued: an ungated rule invocation is refuted, a switch read from a cursor shared between rules and advanced by a consuming search is refuted with the mechanism, any other config-derived gate is undecided.")
+_add("C12",
+     text="Also decided: a hand-written rule that walks the document sentence by sentence, paragraph by paragraph or chunk by chunk carries nothing but its iterator and result vector into the next unit (R-C12-carry); token indices collected before a removal are not used to address the token vector after it.",
+     technique="loop-carried liveness with taint to branch conditions")
+_add("C14",
+     text="Also decided: if the ignore list is a sorted vector searched with binary_search, every mutation keeps it sorted (insert at the reported position, or a sort on every path afterwards).",
+     technique="container-invariant rule over every mutating call on the field")
+_add("C15",
+     text="Also decided: add_dictionary keeps every child it is given.")
+_add("C17",
+     text="Also decided: the suffix found for a number is stored on that number's token - condense_number_suffixes does not address the token vector after its removal with positions counted before it.")
+_add("C18",
+     text="Premise of idempotence checked: no decision of the title-case module reads the current letter case; a violation is reported as undecided (idempotence itself is a value property).")
+_add("C19",
+     text="Also decided: a batch-writing form of Stats::write (join) must terminate the last record.")
